@@ -109,6 +109,8 @@ def _limit(mem_gb):
 def cbmc(files, defines=(), unwind=None, unwindset=None, timeout=300, extra=(), mem_gb=12, trace=True, cwd=None,
          includes=()):
     """One CBMC query.  Always time- and memory-capped; a capped run is never success."""
+    # caps are calibrated on an idle machine; VERIF_TIMEOUT_SCALE stretches them when the machine is shared
+    timeout = int(timeout * float(os.environ.get("VERIF_TIMEOUT_SCALE", "3")))
     cmd = ["cbmc"] + list(files) + ["-I", HERE] + [x for i in includes for x in ("-I", i)]
     for d in defines:
         cmd += ["-D", d]
